@@ -176,6 +176,33 @@ def sweep_case(case):
     return tuple(log)
 
 
+def long_run_case(case):
+    """Thousands of timesteps on one model; a system whose window closed long ago is given a new window (its attributes
+    are read at every timestep) and runs in it exactly as the predicate says."""
+    reset_library()
+    model = new_model(seed=1)
+    log = []
+    Rec = make_rec(log)
+    s = Rec('s', model, 0, 0, 3, 1)
+    other = Rec('o', model, -1, 0, DEFAULT, 997)
+    model.systems.add_system(s)
+    model.systems.add_system(other)
+    n = case['steps']
+    model.execute(n)
+    exp = [(t, 's') for t in range(4)] + [(t, 'o') for t in range(0, n, 997)]
+    if sorted(log) != sorted(exp):
+        raise Violation(f'{n} timesteps: activations differ from the window predicate', expected=len(exp), observed=len(log))
+    del log[:]
+    s.start, s.end, s.frequency = n + 1, n + 10, 3
+    model.execute(20)
+    got = [t for t, k in log if k == 's']
+    want = [t for t in range(n, n + 20) if active(t, n + 1, n + 10, 3)]
+    if got != want or model.timestep != n + 20:
+        raise Violation(f'after {n} timesteps a system whose window had closed was given the window {n + 1}..{n + 10} every '
+                        f'3: activations', expected=want, observed=got)
+    return n + 20
+
+
 def sweep_chunk(ctx, chunk):
     for case in chunk:
         ctx.traces += 1
@@ -389,6 +416,15 @@ def run(ctx):
     ctx.sample(cases[0])
     ctx.sample(cases[len(cases) // 2])
     ctx.leg('window_sweep', configurations=len(cases), horizon=cases[0]['horizon'], exhaustive_product=True)
+    if not ctx.violations and not ctx.small:
+        for steps in (5000,) if ctx.tier == 'quick' else (5000, 70000):
+            case = {'leg': 'long_run', 'steps': steps}
+            ctx.traces += 1
+            try:
+                ctx.transitions += hbfs._guard(long_run_case, case)
+            except Violation as v:
+                ctx.report(case, v)
+        ctx.leg('long_run', note='5000 (thorough also 70000) timesteps, then a closed window is reopened')
     if ctx.violations or ctx.small:
         return
     h = MultiWithTwin(6 if ctx.tier == 'quick' else 9)
@@ -399,6 +435,9 @@ def run(ctx):
 
 
 def replay(case):
+    if case['leg'] == 'long_run':
+        hbfs._guard(long_run_case, case)
+        return
     if case['leg'] == 'window_sweep':
         hbfs._guard(sweep_case, case)
     else:
